@@ -71,7 +71,7 @@ def run_tlc(module, cfg_text, *, workers=None, simulate=None, depth=None, seed=N
         with open(os.path.join(tmp, module + ".cfg"), "w") as fh:
             fh.write(cfg_text)
         w = workers or NCPU
-        cmd = ["java", "-XX:+UseParallelGC", "-Xss64m", "-Xmx" + heap, "-cp", TLA_CP, "tlc2.TLC",
+        cmd = ["java", "-XX:+UseParallelGC", "-Xss64m", "-Xmx" + heap, "-Djava.io.tmpdir=" + tmp, "-cp", TLA_CP, "tlc2.TLC",
                "-workers", str(w), "-metadir", os.path.join(tmp, "meta"), "-noGenerateSpecTE"]
         if not deadlock:
             cmd += ["-deadlock"]
